@@ -391,7 +391,7 @@ func extStructCompat(r *core.Run) {
 	core.AllFuncDecls(pk, func(fd *ast.FuncDecl) {
 		ast.Inspect(fd.Body, func(nd ast.Node) bool {
 			c, ok := nd.(*ast.CallExpr)
-			if !ok || !strings.HasSuffix(core.CalleeName(pk.TypesInfo, c), "conversionVisitor).setJ5Ext") || len(c.Args) != 4 {
+			if !ok || !core.CalleeIs(pk.TypesInfo, c, convRel, "conversionVisitor.setJ5Ext") || len(c.Args) != 4 {
 				return true
 			}
 			name, _ := core.ConstString(pk.TypesInfo, c.Args[2])
@@ -495,7 +495,8 @@ func jsonNameSource(info *types.Info, e ast.Expr) (string, string) {
 		if core.IsConversion(info, c) {
 			return jsonNameSource(info, c.Args[0])
 		}
-		if id, ok := c.Fun.(*ast.Ident); ok && id.Name == "jsonFieldName" {
+		if id, ok := c.Fun.(*ast.Ident); ok && calleeRecorded(info, c) == "jsonFieldName" {
+			_ = id
 			if ic, ok := core.Unparen(c.Args[0]).(*ast.CallExpr); ok {
 				if s, ok := ic.Fun.(*ast.SelectorExpr); ok && s.Sel.Name == "Name" && strings.HasSuffix(core.TypeStr(info.TypeOf(s.X)), "protoreflect.OneofDescriptor") {
 					return core.ExprStr(s.X), "oneof.Name"
